@@ -425,6 +425,13 @@ func drive(p *propDef, tier, replayPath string) int {
 	}
 
 	// evidence (not for replays)
+	if replayPath == "" && len(merged.Samples) == 0 && exit == 0 {
+		fmt.Printf("HARNESS-ERROR property=%s the workload recorded no sample cases for the evidence file\n", p.ID)
+		exit = 2
+	}
+	if merged.Samples == nil {
+		merged.Samples = []any{}
+	}
 	if replayPath == "" && os.Getenv("VERIF_NO_EVIDENCE") == "" {
 		cov := map[string]any{
 			"evaluations":         merged.Evals,
